@@ -199,7 +199,14 @@ def run_case(c, AM, uid):
     AM.__annotations__ = {a["n"]: ANN[a["ann"]] for a in c["mode"]}
     AM.DISABLED = not c["mode"]
     del AM.instances[:]
-    R = type("InjRobot%d" % uid, (magicbot.MagicRobot,), rns)
+    robot_bases = (magicbot.MagicRobot,)
+    if uid % 4 == 3:
+        # an inherited robot: the robot attributes (class level or createObjects) live on a base robot class, the
+        # derived robot only declares the components
+        base_rns = {k: v for k, v in rns.items() if k != "__annotations__"}
+        robot_bases = (type("InjRobotBase%d" % uid, (magicbot.MagicRobot,), base_rns),)
+        rns = {"__annotations__": rns["__annotations__"]}
+    R = type("InjRobot%d" % uid, robot_bases, rns)
     # whether the field management system is attached must not matter: a missing or mistyped dependency stops start-up
     DS.setFmsAttached(uid % 3 == 0)
     DS.notifyNewData()
